@@ -830,7 +830,7 @@ int main(int argc, char **argv)
               "the gradient image itself and as an a8r8g8b8 REPEAT_NONE bits image holding a pre-rendered copy of exactly the sampled w x h region (the gradient, same repeat and transform, composited with OP_SRC into a "
               "zeroed buffer with the same origin; then used with origin 0,0), and additionally as x8r8g8b8 (junk x byte) when that region is entirely opaque; destinations must be equal bit for bit, except "
               "(G1) float-pipeline operators read the gradient in float but the copy in 8 bits: within 2 steps, and for the source role not compared for COLOR_DODGE, COLOR_BURN and the 4 HSL operators (not Lipschitz); "
-              "(G2) SATURATE between the a8r8g8b8 and x8r8g8b8 copies: 1 step (= P2). The 13 exact operators on 32-bit destinations are also compared with the reference equations applied to the copy's pixels. "
+              "(G2) SATURATE between the a8r8g8b8 and x8r8g8b8 copies: 1 step (= P2). (G3) component-alpha mask role, gradient against its copy: 1 step (the walker's value depends by one rounding tie on where the scanline started; the copies are compared exactly). The 13 exact operators on 32-bit destinations are also compared with the reference equations applied to the copy's pixels. "
               "Non-trivial as above (e.g. an opaque-stop repeating gradient is dispatched as OVER->SRC or elided as a mask, its a8r8g8b8 copy is not).";
     vf_assume("C02 (all implementations bit-identical) is checked separately; here 2 (quick) / 5 (thorough) PIXMAN_DISABLE configurations");
     vf_assume("solid fills are created with 16-bit channels = byte * 0x101, i.e. the same colour as the 8-bit pixels");
